@@ -52,6 +52,19 @@ class Branch:
             if isinstance(t.ops[0], ast.In) and isinstance(c, (ast.List, ast.Tuple, ast.Set)):
                 self.kind, self.consts = "in", [e.value for e in c.elts]
                 return
+            if isinstance(t.ops[0], ast.In) and isinstance(c, (ast.Name, ast.Attribute)):
+                # a named constant: take its live value (module global / class attribute of ford.sourceform)
+                import ford.sourceform as _sf
+                val = None
+                if isinstance(c, ast.Name):
+                    val = getattr(_sf, c.id, None)
+                elif isinstance(c.value, ast.Name) and c.value.id == "self":
+                    val = getattr(_sf.FortranContainer, c.attr, None)
+                elif isinstance(c.value, ast.Name):
+                    val = getattr(getattr(_sf, c.value.id, None), c.attr, None)
+                if isinstance(val, (list, tuple, set, frozenset)) and val and all(isinstance(x, str) for x in val):
+                    self.kind, self.consts = "in", sorted(val)
+                    return
         pc = self._pat_call(t)
         if pc:
             self.kind, self.pats = "re", [pc]
